@@ -157,9 +157,43 @@ def modulated(chk, rng, mru, length, target):
     return (rec, [])
 
 
+def slow_delivery(chk, rng, idle, chunk, gap_ms, length):
+    ''' Octets of ONE message trickle in, each read well inside the idle time, for longer than
+    the idle time in total: traffic is flowing, so the receiver must not declare the session idle. '''
+    conf_a = dict(keepalive_time=0, idle_time=0, segment_size_tx_initial=102400)
+    conf_b = dict(keepalive_time=0, idle_time=idle)
+    runner = TC.Runner(cfg_a=conf_a, cfg_b=conf_b)
+    runner.apply(('start', 'A'))
+    runner.apply(('start', 'B'))
+    TC.drain(runner)
+    fails = []
+    runner.apply(('send', 'A', ('gen', rng.randrange(1 << 20), length)))
+    runner.apply(('pq', 'A'))
+    for _ in range(4):
+        runner.apply(('txpump', 'A', 'idle', 1 << 30))
+        runner.apply(('txpump', 'A', 'io', 1 << 30))
+    sock = runner.sysm.ep['B'].sock
+    while sock.inbox and not runner.is_closed('B'):
+        runner.apply(('advance', gap_ms))
+        before = len(TS.decode_stream(runner.sysm.emitted('B'))[0])
+        # GLib dispatches a readable socket and a due timer in the same iteration: the read comes first here
+        runner.apply(('rxpump', 'B', chunk))
+        runner.apply(('fire', 'B', 'idle'))
+        delta = TS.decode_stream(runner.sysm.emitted('B'))[0][before:]
+        if any(f['t'] == 'term' for f in delta) or runner.is_closed('B'):
+            fails.append(('C14 / SESS_TERM(idle) or close although octets were received within the idle time',
+                          'idle %ds, %d octets every %d ms' % (idle, chunk, gap_ms)))
+            break
+    rec = TS.finish(runner, 'slow-delivery', dict(keepalive=0, idle=idle, chunk=chunk, gap_ms=gap_ms))
+    return (rec, fails)
+
+
 def build_all(chk):
     rng = chk.rng
     out = []
+    for (idle, chunk, gap, length) in ([(3, 5, 1000, 60), (2, 1, 900, 40)] if chk.quick()
+                                       else [(3, 5, 1000, 60), (2, 1, 900, 40), (10, 100, 5000, 2000), (1, 2, 999, 30)]):
+        out.append(slow_delivery(chk, rng, idle, chunk, gap, length))
     for (mru, length) in ([(1000, 30000), (500, 9000), (20000, 90000), (10239, 60000)] if chk.quick()
                           else [(m, n) for m in (1, 100, 1000, 5000, 10239, 10240, 20000) for n in (3000, 30000, 90000)]):
         out.append(modulated(chk, rng, mru, length, rng.choice([1, 2])))
